@@ -100,7 +100,7 @@ func TestC09_Notebook(t *testing.T) {
 				c = fmt.Sprintf("cmd%d", i)
 			}
 			r := runWtf(base, dir, []string{"save", "--", c, d})
-			if !strings.Contains(r.Stdout, "saved successfully") {
+			if !saidSaved(r.Stdout, "save") {
 				t.Fatalf("harness: unfaulted save failed: %s %s", r.Stdout, r.Stderr)
 			}
 			oldCmds = append(oldCmds, c)
@@ -147,7 +147,7 @@ func TestC09_Notebook(t *testing.T) {
 		// the unfaulted outcome
 		ref := copyHome(t, dir, base)
 		r0 := runWtf(ref, dir, args)
-		if !strings.Contains(r0.Stdout, okLine) {
+		if !saidSaved(r0.Stdout, okLine) {
 			t.Fatalf("harness: unfaulted op failed: %s", r0.Stdout)
 		}
 		newBytes := readOrNil(ref.Notebook())
@@ -193,7 +193,7 @@ func TestC09_Notebook(t *testing.T) {
 					o.st = "new"
 				case bytes.Equal(got, old):
 					o.st = "old"
-					if strings.Contains(r.Stdout, okLine) {
+					if saidSaved(r.Stdout, okLine) {
 						o.msg = "success was reported although the notebook still holds the previous content"
 					}
 				default:
@@ -216,7 +216,7 @@ func TestC09_Notebook(t *testing.T) {
 					if o.st == "new" {
 						want2 = followOnNew
 					}
-					if !strings.Contains(r2.Stdout, "Command saved successfully!") {
+					if !saidSaved(r2.Stdout, "save") {
 						o.msg = "an ordinary save after the event failed: " + clip(r2.Stdout)
 					} else if !bytes.Equal(got2, want2) {
 						o.msg = fmt.Sprintf("an ordinary save after the event left %d bytes, expected the %d bytes the same save produces from the %s state: %+q", len(got2), len(want2), o.st, clip(string(got2)))
